@@ -92,8 +92,9 @@ class Region(abc.ABC):
                 other_val = getattr(other, param)
                 # array-valued parameters (e.g., polygon vertices) with
                 # different shapes are never equal (do not broadcast)
-                if (getattr(self_val, 'shape', None)
-                        != getattr(other_val, 'shape', None)):
+                # (a Python number and a numpy scalar both have shape ())
+                if (getattr(self_val, 'shape', ())
+                        != getattr(other_val, 'shape', ())):
                     return False
                 # np.any is used for SkyCoord array comparisons
                 if np.any(self_val != other_val):
